@@ -53,10 +53,12 @@ pub(super) fn captured_nodes(
                 .iter()
                 .map(|&i| {
                     let t = &callable.inputs()[i].type_;
+                    // Lifetime names are irrelevant when matching an input against the
+                    // output type of a dependency: `Foo<'a>` and `Foo<'_>` are the same type here.
                     if let Type::Reference(r) = t {
-                        r.inner.deref().to_owned()
+                        r.inner.deref().canonicalize()
                     } else {
-                        t.to_owned()
+                        t.canonicalize()
                     }
                 })
                 .collect();
@@ -66,9 +68,9 @@ pub(super) fn captured_nodes(
                 .map(|&i| {
                     let t = &callable.inputs()[i].type_;
                     if let Type::Reference(r) = t {
-                        r.inner.deref().to_owned()
+                        r.inner.deref().canonicalize()
                     } else {
-                        t.to_owned()
+                        t.canonicalize()
                     }
                 })
                 .collect();
@@ -105,6 +107,7 @@ pub(super) fn captured_nodes(
             let Some(dependency_type) = dependency_type else {
                 continue 'inner;
             };
+            let dependency_type = dependency_type.canonicalize();
             if captured.contains(&dependency_type) {
                 // The capture relationship is transitive:
                 // if `A` captures `B` and `B` captures `C`, then `A` also captures `C`.
